@@ -19,6 +19,26 @@ CHECKS = {
                 note="base runs of the same build define the reference system; observation projection of the harness "
                      "(text, tags, choices, errors, warnings, path, globals, visit counts, key-sorted save document)",
                 technique="TLA+ trace validation (InkHostTrace/InkHostAbs) of invalid-call injection + TLC model checking of InkHost"),
+    "C02": dict(level=MC, ref="5/C02",
+                text="TLC validates recorded runs against InkHostAbs rules SaveA/LoadA: a load into a freshly constructed "
+                     "twin jumps to the saved position of the reference system built from base runs; every explored "
+                     "continuation is then compared observation by observation, and the save document written after the "
+                     "load must equal the loaded one. Bounded by generated and corpus programs, save points, continuations.",
+                note="base runs of the same build; observation projection of the harness; twin built from the same document",
+                technique="TLA+ trace validation (InkHostTrace/InkHostAbs) of save/load histories + TLC model checking of InkHost"),
+    "C16": dict(level=MC, ref="5/C16",
+                text="TLC validates recorded runs against InkHostAbs rule EvalA: a host evaluation of a pure function does "
+                     "not move the abstract position; the observation (function's own visit/turn entries masked) is "
+                     "unchanged, a repeated call returns the same value and text, later operations equal the base run.",
+                note="purity is a generator fact; the thread's previous-content pointer in the save document is masked",
+                technique="TLA+ trace validation (InkHostTrace/InkHostAbs) of injected evaluate_function calls"),
+    "C17": dict(level=MC, ref="5/C17",
+                text="TLC validates recorded runs against InkHostAbs rule ResetA: after any explored history (cut mid-line, "
+                     "unfinished async slice, flows, jumps, loads, host assignments, errors) reset_state returns to the home "
+                     "position of the reference system; registrations stay, so callbacks after the reset equal the base "
+                     "run's. Rule JumpReset: a path jump with call-stack reset keeps globals and counts and leaves one frame.",
+                note="the harness re-applies the seed after reset (hook); base runs of the same build",
+                technique="TLA+ trace validation (InkHostTrace/InkHostAbs) of history+reset+replay"),
 }
 
 NOT_YET = {}
